@@ -57,6 +57,9 @@ func chanFromField(v ssa.Value, typ, field string) bool {
 }
 
 func runC09(c *Ctx) {
+	c.rule("C09-R6", "PAIR: every Lock/RLock in pkg/interpreter (Future, combinators) and pkg/vm is released on every path to a return: an awaiter can never block on a mutex a settled future still holds")
+	c.Sites["C09-R6#acquire-sites"] = lockReleaseAudit(c, "C09-R6", []string{interpPkg, vmPkg})
+	c.floor("C09-R6", 8)
 	// ---- R1 settle once
 	c.rule("C09-R1", "LCK+ORD on interpreter.Future: state/value/err/resolved only under Future.mu (writes exclusive); every settling write and every close(done) is unreachable once the `resolved == false` edge is cut (dominated by the already-settled test); resolved=true is stored before close(done); at most one close(done) per path; in Await* every read of state/value/err follows the receive from done (select case index of done); close(cancel) only under the select-default idiom")
 	g := func(f string) guard {
